@@ -57,7 +57,9 @@ Conforms ==
   IN CASE ph = "init" ->
             /\ (l = 1 \/ (l = 2 /\ Ev(1).ph = "bw_enter"))
             /\ (Opts.initState /\ Opts.initLog => s = InitF(RunCfg))
-            /\ (~Opts.initState /\ ~Opts.initLog /\ rid > 1 /\ IsSim => s = [Pre.st EXCEPT !.mode = "FORWARD"])
+            /\ (~(Opts.initState /\ Opts.initLog) /\ rid > 1 /\ IsSim =>
+                  s = [InitializeFlagsF(Cfg, [st |-> Pre.st, lg |-> Pre.lg], Opts.initState, Opts.initLog).st
+                         EXCEPT !.mode = "FORWARD"])
        [] ph = "bw_enter" -> l = 1 /\ Run.op = "backward"
        [] ph = "bw_exit" -> l = Len(Run.ev) /\ Run.op = "backward"
        [] ph = "finished" ->
@@ -179,6 +181,10 @@ RunClauses ==
                  THEN << <<"L2.resume", [st |-> Run.final.st, lg |-> Run.final.lg] = ResumeF(Cfg, Opts, [st |-> Pre.st, lg |-> Pre.lg])>> >>
                  ELSE <<>>)
         [] Run.op = "backward" -> On("C17", C17_H(Cfg, Run))
+        [] Run.op = "initialize" /\ rid > 1 ->
+             << <<"L2.initialize", Run.ret = "ok" /\
+                   LET x == InitializeFlagsF(Cfg, [st |-> Pre.st, lg |-> Pre.lg], Run.args.state, Run.args.log)
+                   IN Run.final.st = x.st /\ [Run.final.lg EXCEPT !.absL = <<>>] = [x.lg EXCEPT !.absL = <<>>]>> >>
         [] Run.op = "reverse" -> << <<"L2.reverse", Run.final.lg = ReverseLogsF(Pre.lg) /\ Run.final.st = Pre.st>> >>
         [] Run.op = "remove_absence" ->
              On("C18", C18_H(Cfg, Run, Pre))
